@@ -101,7 +101,9 @@ def run(ses):
     jobs += upper.panic_jobs(ses.tier)
     from .. import kani
     jobs.append((kani.job_footer_compare, ()))        # Kani also checks panic freedom of the footer comparison on the compiled code (footer / segment lengths 0-3)
-    if ses.tier == 'thorough': jobs.append((kani.job_key_hex, ()))
+    jobs.append((kani.job_key_hex, (ses.tier != 'thorough',)))        # Key::<N>::try_from(&str) on the compiled code with the real hex crate (quick: the three short harnesses)
+    from .. import kani as _kani
+    jobs.append((_kani.job_le64, ()))        # the PAE length prefix is a summary in the SMT runs: Kani checks le64 itself on the compiled code (all 2^64 inputs)
     run_jobs(ses, jobs)
     ses.trusted_base = TRUSTED
     ses.assumptions = ['token text, footer, assertion: arbitrary strings shorter than 2^40 bytes; key objects have the length their type guarantees']
